@@ -19,7 +19,7 @@ from sim import child, gen, progtree
 ID = 'C15'
 LEVEL = 'exploration'
 TIERS = {
-    'quick': {'subseeds': 160, 'variants': 10, 'xproc_every': 4, 'hashseeds': 4, 'wall_budget': 240, 'min_runs': 200},
+    'quick': {'subseeds': 400, 'variants': 10, 'xproc_every': 4, 'hashseeds': 4, 'wall_budget': 240, 'min_runs': 200},
     'thorough': {'subseeds': 4000, 'variants': 16, 'xproc_every': 6, 'hashseeds': 8, 'wall_budget': 3000,
                  'min_runs': 400},
 }
